@@ -31,7 +31,7 @@ func checkC13(c *Ctx) {
 	c.Run.Floor = 40
 	sel := shapeSel{
 		ExtraTypes: commonExtras,
-		Forms: []string{"top"}, QuickDeep: 50, QuickRand: 16, ThorRand: 300, BatchSize: 22,
+		Forms:      []string{"top"}, QuickDeep: 50, QuickRand: 16, ThorRand: 300, BatchSize: 22,
 		KeepShape: func(t *pgen.Type) bool { return behaviouralShape(t) && !containsCustom(t) },
 		Ops: func(t *pgen.Type, form string) []string {
 			var ops []string
